@@ -45,7 +45,7 @@ class Model:
         return self.ask('close %d' % c)
 
     def cmd(self, c, fields, clocks, picks, park=False):
-        return self.ask('cmd %d %d %s %s %s' % (c, 1 if park else 0, fmt_clocks(clocks), fmt_picks(picks),
+        return self.ask('cmd %d %d %s %s %s' % (c, int(park), fmt_clocks(clocks), fmt_picks(picks),
                                                    ' '.join(hx(f) for f in fields)))
 
     def send(self, c, data, clocks, picks):
